@@ -12,9 +12,28 @@ Open Scope Z_scope.
 """
 
 
+def report_busy(ctx, scenarios, obs):
+    """Rand/Flags.v idle_after_every_op, observed: with no call in progress no field model is flagged as solved-for or holds
+    a solver node - after every operation of every scenario (construction, assignment, list edits, calls that return,
+    fail or raise)"""
+    n = 0
+    for sc, o in zip(scenarios, obs):
+        for oi, res in enumerate(o.get("ops", []) if isinstance(o, dict) else []):
+            if isinstance(res, dict) and res.get("busy"):
+                n += 1
+                if n <= 3:
+                    core.add_violation(ctx, "after operation %r returned, field models are still flagged as solved-for / hold solver "
+                                            "nodes: %s (a later call that only refers to such a field would overwrite it)"
+                                       % (sc["ops"][oi], res["busy"][:6]), {"scenario": brief(sc, oi), "busy": res["busy"]})
+    ctx.coverage["idle_flag_observations"] = ctx.coverage.get("idle_flag_observations", 0) + sum(
+        len(o.get("ops", [])) for o in obs if isinstance(o, dict))
+    return n
+
+
 def evaluate(ctx, scenarios, tag, do_sat=True):
     """returns list of (scenario index, op index, code, res) for every randomize op; code None = no Coq verdict"""
     obs = core.run_impl_parallel(ctx, "solve_impl.py", scenarios)
+    report_busy(ctx, scenarios, obs)
     items = []     # (si, oi, literal)
     crashed = []
     for si, (sc, o) in enumerate(zip(scenarios, obs)):
